@@ -1,34 +1,62 @@
 import Ecal.Drivers.Util
 import Ecal.Model.Path
+import Ecal.Gen.C17
 /-!
 Model driver of C17. Payloads (space separated, strings hex encoded, `-` = empty):
 
 * `P <a> <b>` — the path primitives: result `<Clean a> <Join a b> <Rel a b | ERR>`.
-* `R|I <cwd> <files> <root> <rootpos> <pre|~> <depth> <alphabet>` — `Resolve` (directly / through
-  an `import` statement): the paths are `pre` followed by every sequence of exactly `depth`
-  alphabet elements, joined by `/` (`~` = no `pre`). `files` is the comma separated list of
-  the existing files; `cwd`, `files`, `rootpos` are relative to the base directory `B` of the
-  tree. A string starting with `@` stands for `B` followed by the rest; the model uses the
-  absolute clean one-element path `/^B` for `B` (the harness substitutes the real directory).
-  Result: per path `E` (error), `I<n>` (content of file n, inside the root) or `O<n>`
-  (content of file n, OUTSIDE the root), comma separated. `rootpos` is not used by the model:
-  it computes the root's position by walking the root string.
+* `R|I|N <cwd> <files> <root> <rootpos> <pre|~> <depth> <alphabet>` — `Resolve` (directly / through
+  an `import` statement / through an import with the provider's default locator): the paths are
+  `pre` followed by every sequence of exactly `depth` alphabet elements, joined by `/` (`~` = no
+  `pre`). `files` is the comma separated list of the existing files; `cwd`, `files`, `rootpos`
+  are relative to the base directory `B` of the tree. A string starting with `@` stands for `B`
+  followed by the rest, `@:` for the name of `B`; the model uses the absolute clean path
+  `/^2/^1/^B` for `B` (the harness substitutes the real directory, which has at least two ancestors).
+  Result per path `<opened>=<result>`, comma separated: `<opened>` = the strings that reached the
+  open (hex, `|` separated, a leading `B` / parent / grandparent of `B` written `@B` / `@1` / `@2`),
+  `-` if none; `<result>` = `rej` / `relerr` (R lines: no open, the locator's own rejection / the error
+  of `Rel`), `E` (error), `I<n>` (content of file n, inside the root), `O<n>` (content of file n,
+  OUTSIDE the root). `rootpos` is not used by the model: it walks the root string.
+  A lower case kind letter: the tree under test has no `c17.open` instrumentation point; `<opened>`
+  is then `?` and every error `E`.
 * `J <cwd> <files+modules> <root> <rootpos> <srcname> <path>` — the import statement in a program
   parsed under `srcname`; file entries `pos>inner` are modules importing `inner`. Model:
-  `importEval` (the source name is not used). Result `E` / `I<n>` / `O<n>`.
-* `T <cwd> <files> <dir> <modelroot> <rootpos> <pre|~> <depth> <alphabet>` — the command line tool
-  configured with `dir`; the model resolves with `toolLocatorRoot modelroot` (`modelroot = dir`
-  except for a symlinked root, where it is the link's target).
+  `importEval` instantiated with the facts regenerated from rt_general.go.
+* `T|U <cwd> <files> <dir|~> <modelroot> <rootpos> <pre|~> <depth> <alphabet>` — the command line
+  tool configured with `dir` programmatically / through `ParseArgs` (`~`: no `-dir`); the model
+  resolves with `toolRoot … modelroot` (`modelroot = dir` except for a symlinked root, where it is
+  the link's target and `<opened>` is `?`, and without `-dir`, where it is the working directory).
 -/
 namespace Ecal.Drv.C17
 open Ecal.Drv Ecal.Path
 
-def modelB : Str := [47, 94, 66]
+def modelB : Str := [47, 94, 50, 47, 94, 49, 47, 94, 66]
 
 def subst (s : Str) : Str :=
   match s with
+  | 64 :: 58 :: rest => [94, 66] ++ rest
   | 64 :: rest => modelB ++ rest
   | _ => s
+
+def startsWith (pat s : Str) : Bool := s.take pat.length == pat
+
+/-- replace every occurrence of the non-empty `pat` (fuel = length of the string: every step consumes a byte) -/
+def replaceAllAux (pat rep : Str) : Nat → Str → Str
+  | 0, s => s
+  | _, [] => []
+  | fuel + 1, c :: cs =>
+    if startsWith pat (c :: cs) then rep ++ replaceAllAux pat rep fuel ((c :: cs).drop pat.length)
+    else c :: replaceAllAux pat rep fuel cs
+
+def replaceAll (pat rep s : Str) : Str := if pat.isEmpty then s else replaceAllAux pat rep s.length s
+
+/-- the opened string spelled independently of `B`: `^2/^1/^B` → `@B`, `^2/^1` → `@1`, `^2` → `@2`, `^B` → `@:` -/
+def canon (q : Str) : Str :=
+  if !q.contains 94 then q else
+  let q := replaceAll (modelB.drop 1) [64, 66] q
+  let q := replaceAll ((modelB.take 6).drop 1) [64, 49] q
+  let q := replaceAll ((modelB.take 3).drop 1) [64, 50] q
+  replaceAll [94, 66] [64, 58] q
 
 def optStr : Option Str → String
   | some s => hexEnc s
@@ -42,7 +70,7 @@ def splitComma (s : Str) : List Str :=
   go s [] []
 
 /-- position of a `B`-relative string -/
-def relPos (s : Str) : Pos := [94, 66] :: (elems s).filter (· ≠ [])
+def relPos (s : Str) : Pos := [94, 50] :: [94, 49] :: [94, 66] :: (elems s).filter (· ≠ [])
 
 def isPrefixOf (a b : Pos) : Bool := a.length ≤ b.length && b.take a.length == a
 
@@ -56,16 +84,33 @@ def findIdx (files : List Pos) (p : Pos) : Option Nat :=
     | f :: fs, i => if f = p then some i else go fs (i + 1)
   go files 0
 
-def outcome (cwd : Pos) (files : List Pos) (root p : Str) : String :=
+/-- `(opened, result)`; `detail`: separate the locator's rejection from the error of `Rel` -/
+def outcome (cwd : Pos) (files : List Pos) (detail : Bool) (root p : Str) : List Str × String :=
   match resolve root p with
   | .opened q =>
     let pos := walkStr cwd q
     match findIdx files pos with
-    | none => "E"
+    | none => ([q], "E")
     | some i =>
       let rootPos := walkStr cwd root
-      (if isPrefixOf rootPos pos then "I" else "O") ++ toString i
-  | _ => "E"
+      ([q], (if isPrefixOf rootPos pos then "I" else "O") ++ toString i)
+  | .rejected => ([], if detail then "rej" else "E")
+  | .relError => ([], if detail then "relerr" else "E")
+
+def fnv (s : Str) : UInt32 := s.foldl (fun h c => (h ^^^ c.toUInt32) * 16777619) 2166136261
+
+def hex6 (h : UInt32) : String :=
+  let n := (h &&& 0xffffff).toNat
+  String.ofList ((List.range 6).reverse.map fun i => hexDigit ((n / 16 ^ i) % 16))
+
+/-- render one observation; `ev = false`: the opened strings are not observed; `short`: lines that
+    carry many paths print a 24 bit FNV-1a digest of the opened string(s) instead -/
+def obs (ev short : Bool) (o : List Str × String) : String :=
+  if !ev then "?=" ++ o.2
+  else if o.1.isEmpty then "-=" ++ o.2
+  else if short then
+    hex6 (fnv (([124] : Str).intercalate (o.1.map canon))) ++ "=" ++ o.2
+  else "|".intercalate (o.1.map fun q => hexEnc (canon q)) ++ "=" ++ o.2
 
 /-- a file entry `pos` or `pos>inner` -/
 def parseEntry (e : Str) : Pos × Option Str :=
@@ -90,25 +135,30 @@ def classify (cwd : Pos) (entries : List (Pos × Option Str)) (root : Str) : Opt
     | none => "E"
     | some (pos, _) => (if isPrefixOf (walkStr cwd root) pos then "I" else "O") ++ toString i
 
-/-- the paths of an `R` / `I` / `T` line resolved with the locator root `root` -/
-def runResolve (cwd files root pre depth alpha : String) : String :=
-    match hexDecode cwd, hexDecode files, hexDecode root, depth.toNat?, hexDecode alpha with
-    | some cwd, some files, some root, some depth, some alpha =>
-      let pre? : Option (Option Str) := if pre = "~" then some none else (hexDecode pre).map some
-      match pre? with
-      | none => "bad-payload"
-      | some pre =>
-        let cwdPos := relPos cwd
-        let filePos := (splitComma files).map relPos
-        let root := subst root
-        let alpha := splitComma alpha
-        let paths := (allExt alpha depth).map fun ext =>
-          match pre with
-          | some p => subst p ++ ext.flatMap (fun e => 47 :: e)
-          | none => joinSep ext
-        let rs := paths.map (outcome cwdPos filePos root)
-        ",".intercalate rs ++ (if rs.any (· ≠ "E") then "\tnt=1" else "")
-    | _, _, _, _, _ => "bad-payload"
+/-- the paths of an `R` / `I` / `N` / `T` / `U` line resolved with the locator root `root` -/
+def runResolve (ev detail : Bool) (cwd files root pre depth alpha : String) : String :=
+  match hexDecode cwd, hexDecode files, hexDecode root, depth.toNat?, hexDecode alpha with
+  | some cwd, some files, some root, some depth, some alpha =>
+    let pre? : Option (Option Str) := if pre = "~" then some none else (hexDecode pre).map some
+    match pre? with
+    | none => "bad-payload"
+    | some pre =>
+      let cwdPos := relPos cwd
+      let filePos := (splitComma files).map relPos
+      let root := subst root
+      let alpha := splitComma alpha
+      let paths := (allExt alpha depth).map fun ext =>
+        match pre with
+        | some p => subst p ++ ext.flatMap (fun e => 47 :: e)
+        | none => joinSep ext
+      let rs := paths.map (outcome cwdPos filePos (detail && ev) root)
+      ",".intercalate (rs.map (obs ev (depth > 0))) ++
+        (if rs.any (fun o => o.2 ≠ "E" ∧ o.2 ≠ "rej" ∧ o.2 ≠ "relerr") then "\tnt=1" else "")
+  | _, _, _, _, _ => "bad-payload"
+
+/-- the adversary of the import model is never consulted when the regenerated facts hold; if they do
+    not (the property theorem is then broken anyway) the driver keeps the configured behaviour -/
+def noAdv : Str → Str → Str → Str × Str := fun root _ p => (root, p)
 
 def runCase (payload : String) : String :=
   match payload.splitOn " " with
@@ -117,22 +167,29 @@ def runCase (payload : String) : String :=
     | some a, some b =>
       hexEnc (cleanStr a) ++ " " ++ hexEnc (joinStr a b) ++ " " ++ optStr (relStr a b) ++ "\tnt=1"
     | _, _ => "bad-payload"
-  | ["J", cwd, files, root, _rootpos, src, path] =>
+  | [kind, cwd, files, root, _rootpos, src, path] =>
+    if kind ≠ "J" ∧ kind ≠ "j" then "bad-payload" else
     match hexDecode cwd, hexDecode files, hexDecode root, hexDecode src, hexDecode path with
     | some cwd, some files, some root, some src, some path =>
       let cwdPos := relPos cwd
       let entries := (splitComma files).map parseEntry
       let root := subst root
-      let r := importEval (mkFS cwdPos entries) root 8 (subst src) path
+      let r := importEval Ecal.Gen.C17.importFacts noAdv (mkFS cwdPos entries) root 8 (subst src) path
       let res := classify cwdPos entries root r.1
-      res ++ (if res ≠ "E" then "\tnt=1" else "")
+      obs (kind = "J") false (r.2, res) ++ (if res ≠ "E" then "\tnt=1" else "")
     | _, _, _, _, _ => "bad-payload"
-  | ["T", cwd, files, _dir, modelroot, _rootpos, pre, depth, alpha] =>
+  | [kind, cwd, files, dir, modelroot, _rootpos, pre, depth, alpha] =>
+    if kind ≠ "T" ∧ kind ≠ "t" ∧ kind ≠ "U" ∧ kind ≠ "u" then "bad-payload" else
     match hexDecode modelroot with
-    | some r => runResolve cwd files (hexEnc (toolLocatorRoot r)) pre depth alpha
+    | some r =>
+      let ev := (kind = "T" ∨ kind = "U") ∧ (dir = modelroot ∨ dir = "~")
+      runResolve ev false cwd files (hexEnc (toolRoot Ecal.Gen.C17.toolRootIsDir (fun d => d) r)) pre depth alpha
     | none => "bad-payload"
   | [kind, cwd, files, root, _rootpos, pre, depth, alpha] =>
-    if kind ≠ "R" ∧ kind ≠ "I" then "bad-payload" else runResolve cwd files root pre depth alpha
+    if kind = "R" ∨ kind = "r" then runResolve (kind = "R") true cwd files root pre depth alpha
+    else if kind = "I" ∨ kind = "i" ∨ kind = "N" ∨ kind = "n" then
+      runResolve (kind = "I" ∨ kind = "N") false cwd files root pre depth alpha
+    else "bad-payload"
   | _ => "bad-payload"
 
 def run (_args : List String) : IO Unit := lineLoop runCase
